@@ -52,6 +52,14 @@ def strip_class():
     return to_ranges(c for c in range(MAXCP) if (chr(c) + "x" + chr(c)).strip() == "x")
 
 
+def lean_char(ch):
+    return "Char.ofNat %d" % ord(ch)
+
+
+def lb(b):
+    return "true" if b else "false"
+
+
 def lean_ranges(rs):
     return "[" + ", ".join("(%d, %d)" % r for r in rs) + "]"
 
@@ -75,7 +83,48 @@ def tables():
         probes[c] = items
     item_seps = [c for c, it in probes.items() if it is not None and len(it) != 1]
     kv_seps = [c for c, it in probes.items() if it is not None and len(it) == 1 and it[0] != ("a" + chr(c) + "b", None)]
+    # what CPython's urlsplit silently removes from the string it is given (ural cleans first; the
+    # parser must have nothing left to remove): probed on the running interpreter
+    from urllib.parse import urlsplit
+
+    probe = set(range(0, 0x3100)) | {0xFEFF, 0xFFA0, 0xE0001, 0xE0020}
+    for lo, hi in control + nonprint + strip_class():
+        if hi - lo < 4096:
+            probe.update(range(lo, hi + 1))
+    removed, stripped_start, stripped_end = [], [], []
+    for c in sorted(probe):
+        ch = chr(c)
+        if ch in "/?#:@[]\\" or 0xD800 <= c < 0xE000:
+            continue
+        try:
+            sp = urlsplit("http://a.com/x" + ch + "y?k" + ch + "v#f" + ch + "g")
+            if ch not in sp.path or ch not in sp.query or ch not in sp.fragment:
+                removed.append(c)
+                continue
+            sp = urlsplit(ch + "http://a.com/x")
+            if sp.scheme == "http" and sp.netloc == "a.com":
+                stripped_start.append(c)
+            sp = urlsplit("http://a.com/x" + ch)
+            if sp.path == "/x":
+                stripped_end.append(c)
+        except ValueError:
+            removed.append(c)
+    # the three recognisers of an escape: decoder (HEX_TO_BYTE), quoter (QUOTED_RE), upper_quoted
+    alphabet = "0123456789ABCDEFabcdefGgXxZz-%/ "
+    escapes = []
+    for a in alphabet:
+        for b in alphabet:
+            e = "%" + a + b
+            dec = (a + b).encode() in q.HEX_TO_BYTE and q.unquote(e + "Z", lossless=True) != "%25" + a + b + "Z"
+            quo = q.safely_quote(e) == e
+            up = q.upper_quoted(e) != e
+            upok = q.upper_quoted(e) in (e, e.upper())
+            escapes.append((a, b, dec, quo, up, upok))
     return {
+        "urlsplit_removed": to_ranges(removed),
+        "urlsplit_stripped_start": to_ranges(stripped_start),
+        "urlsplit_stripped_end": to_ranges(stripped_end),
+        "escapes": escapes,
         "control": control,
         "control_one": control_one,
         "strip": strip_class(),
@@ -107,6 +156,22 @@ def gen_c03_classes():
     out.append("def queryItemSeparators : List Nat := %s" % ("[" + ", ".join(str(c) for c in t["item_seps"]) + "]"))
     out.append("/-- printable ASCII characters at which `safe_qsl_iter` cuts an item into key and value -/")
     out.append("def queryKeyValueSeparators : List Nat := %s" % ("[" + ", ".join(str(c) for c in t["kv_seps"]) + "]"))
+    out.append("")
+    out.append("/-- code points CPython's `urlsplit` deletes wherever they stand (probed on the running interpreter over")
+    out.append("U+0000–U+30FF and the members of the classes above; delimiters excluded) -/")
+    out.append("def urlsplitRemovedRanges : List (Nat × Nat) := %s" % lean_ranges(t["urlsplit_removed"]))
+    out.append("/-- code points `urlsplit` strips in front of the URL / at its end -/")
+    out.append("def urlsplitStrippedStartRanges : List (Nat × Nat) := %s" % lean_ranges(t["urlsplit_stripped_start"]))
+    out.append("def urlsplitStrippedEndRanges : List (Nat × Nat) := %s" % lean_ranges(t["urlsplit_stripped_end"]))
+    out.append("")
+    out.append("/-- `%ab` for every pair of a probe alphabet: `(a, b, the decoder decodes it, safely_quote keeps it as an")
+    out.append("escape, upper_quoted changes it, upper_quoted returns it as is or upper-cased)` -/")
+    out.append("def escapeProbes : List (Char × Char × Bool × Bool × Bool × Bool) := [")
+    rows = []
+    for a, b, dec, quo, up, upok in t["escapes"]:
+        rows.append("  (%s, %s, %s, %s, %s, %s)" % (lean_char(a), lean_char(b), lb(dec), lb(quo), lb(up), lb(upok)))
+    out.append(",\n".join(rows))
+    out.append("]")
     out.append("")
     out.append("end Ural.Gen.C03")
     return {"C03Classes.lean": "\n".join(out) + "\n"}
